@@ -92,6 +92,7 @@ type Stream struct {
 	// Read data above the sinceTs. All keys with version =< sinceTs will be ignored.
 	SinceTs      uint64
 	readTs       uint64
+	txn          *Txn // The snapshot of the current Orchestrate run, shared by all producers.
 	db           *DB
 	rangeCh      chan keyRange
 	kvChan       chan *z.Buffer
@@ -176,13 +177,9 @@ func (st *Stream) produceKVs(ctx context.Context, threadId int) error {
 	defer st.numProducers.Add(-1)
 
 	verifhook.Point("stream.beforeTxn")
-	var txn *Txn
-	if st.readTs > 0 {
-		txn = st.db.NewTransactionAt(st.readTs, false)
-	} else {
-		txn = st.db.NewTransaction(false)
-	}
-	defer txn.Discard()
+	// All producers iterate over the one read-only transaction opened by Orchestrate, so that
+	// every key range is read from the same snapshot.
+	txn := st.txn
 
 	// produceKVs is running iterate serially. So, we can define the outList here.
 	outList := z.NewBuffer(2*batchSize, "Stream.ProduceKVs")
@@ -428,6 +425,20 @@ func (st *Stream) Orchestrate(ctx context.Context) error {
 	if st.KeyToList == nil {
 		st.KeyToList = st.ToList
 	}
+
+	// Open the snapshot that the whole run reads from. Producers used to open one transaction
+	// each; outside managed mode every transaction gets its own read timestamp, so while other
+	// transactions were committing, different key ranges were streamed as of different
+	// timestamps. It is discarded after all producers (and their iterators) are done.
+	if st.readTs > 0 {
+		st.txn = st.db.NewTransactionAt(st.readTs, false)
+	} else {
+		st.txn = st.db.NewTransaction(false)
+	}
+	defer func() {
+		st.txn.Discard()
+		st.txn = nil
+	}()
 
 	// Picks up ranges from Badger, and sends them to rangeCh.
 	go st.produceRanges(ctx)
